@@ -223,6 +223,15 @@ func engineCaseInvCLI(ctx *Ctx) {
 		dbp := filepath.Join(base, "db.yml")
 		vlib.WriteYAML(dbp, cmds)
 		words := vlib.DBWords(cmds)
+		// the locale the user's shell exports (the same for both spellings of a pair): case folding of a query may not follow it
+		var locEnv []string
+		if loc := []string{"", "", "C", "en_US.UTF-8", "tr_TR.UTF-8", "az_AZ.UTF-8", "de_DE.UTF-8", "tr_TR", "lt_LT.UTF-8", "el_GR.UTF-8"}[r.Intn(10)]; loc != "" {
+			locEnv = [][]string{{"LC_ALL=" + loc}, {"LANG=" + loc}, {"LC_CTYPE=" + loc, "LANG=" + loc}}[r.Intn(3)]
+			ctx.R.Path("cli-homes-with-a-locale", 1)
+			if strings.HasPrefix(loc, "tr") || strings.HasPrefix(loc, "az") || strings.HasPrefix(loc, "lt") {
+				ctx.R.Path("cli-homes-with-a-special-casing-locale", 1)
+			}
+		}
 		for qi := 0; qi < ctx.Pick(6, 8); qi++ {
 			qkind := []int{0, 2, 2}[r.Intn(3)]
 			q := vlib.GenQuery(r, words, 1+r.Intn(3), qkind)
@@ -259,11 +268,11 @@ func engineCaseInvCLI(ctx *Ctx) {
 			mk := func(query string) []string {
 				return []string{"--database", dbp, "--format", "json", "-v", "--no-color", "--limit", fmt.Sprint(limit), "--all-platforms", "--", query}
 			}
-			cs := map[string]interface{}{"db_entries": len(cmds), "query": q, "variant": q2, "kind": kind, "limit": limit}
+			cs := map[string]interface{}{"db_entries": len(cmds), "query": q, "variant": q2, "kind": kind, "limit": limit, "env": locEnv}
 			ctx.R.Begin(cs)
 			ctx.R.Eval(1)
 			rank := func(query string) (vlib.Ranked, string, bool) {
-				res := h.Wtf(ctx.Wtf, nil, mk(query)...)
+				res := h.Wtf(ctx.Wtf, locEnv, mk(query)...)
 				if bad, why := res.Crashed(); bad {
 					ctx.R.Violate(vlib.Violation{Property: "C20", Clause: "crash", Path: "cli", Detail: why, Witness: cs})
 					return nil, "", false
@@ -351,7 +360,7 @@ func engineCaseInvCLI(ctx *Ctx) {
 			ctx.R.Begin(cs)
 			ctx.R.Eval(1)
 			show := func(query string) (string, bool) {
-				res := h.Wtf(ctx.Wtf, nil, "pipeline", "--database", dbp, "--limit", fmt.Sprint(limit), "-v", "--", query)
+				res := h.Wtf(ctx.Wtf, locEnv, "pipeline", "--database", dbp, "--limit", fmt.Sprint(limit), "-v", "--", query)
 				if bad, why := res.Crashed(); bad {
 					ctx.R.Violate(vlib.Violation{Property: "C20", Clause: "crash", Path: "cli-pipeline", Detail: why, Witness: cs})
 					return "", false
